@@ -149,4 +149,12 @@ VARIANTS = [
     dict(name="c10-header-decoded-with-validation-off", property="C10", rule="C10-V", file="src/pyrtma/message.py",
          old='        hdr_cls = get_header_cls()\n        hdr = hdr_cls.from_dict(d["header"])\n',
          new='        from .validators import disable_message_validation\n        hdr_cls = get_header_cls()\n        with disable_message_validation():\n            hdr = hdr_cls.from_dict(d["header"])\n'),
+
+    # __init_subclass__ hook run on class keywords
+    dict(name="c09-silent-bounds-from-init-subclass", property="C09", expect="silent", file=V,
+         edits=[dict(file=V, old='    _max: ClassVar[int] = 2**8 - 1\n\n    @abstractmethod\n    def __init__(self, *args): ...\n', new='    _max: ClassVar[int] = 2**8 - 1\n\n    def __init_subclass__(cls, size=None, unsigned=False, **kwargs) -> None:\n        super().__init_subclass__(**kwargs)\n        if size is None:\n            return\n        bits = 8 * size\n        cls._size = size\n        cls._unsigned = unsigned\n        if unsigned:\n            cls._min = 0\n            cls._max = 2**bits - 1\n        else:\n            cls._min = -(2 ** (bits - 1))\n            cls._max = 2 ** (bits - 1) - 1\n\n    @abstractmethod\n    def __init__(self, *args): ...\n'),
+                dict(file=V, old='class Int8(IntValidatorBase[_P, ctypes.c_int8], Generic[_P]):\n    """Validator for 8-bit integers"""\n\n    _size: ClassVar[int] = 1\n    _unsigned: ClassVar[bool] = False\n    _min: ClassVar[int] = -(2**7)\n    _max: ClassVar[int] = 2**7 - 1\n\n', new='class Int8(IntValidatorBase[_P, ctypes.c_int8], Generic[_P], size=1, unsigned=False):\n    """Validator for 8-bit integers"""\n\n')]),
+    dict(name="c09-init-subclass-signed-max-off-by-one", property="C09", rule="C09-W", file=V,
+         edits=[dict(file=V, old='    _max: ClassVar[int] = 2**8 - 1\n\n    @abstractmethod\n    def __init__(self, *args): ...\n', new='    _max: ClassVar[int] = 2**8 - 1\n\n    def __init_subclass__(cls, size=None, unsigned=False, **kwargs) -> None:\n        super().__init_subclass__(**kwargs)\n        if size is None:\n            return\n        bits = 8 * size\n        cls._size = size\n        cls._unsigned = unsigned\n        if unsigned:\n            cls._min = 0\n            cls._max = 2**bits - 1\n        else:\n            cls._min = -(2 ** (bits - 1))\n            cls._max = 2 ** (bits - 1)\n\n    @abstractmethod\n    def __init__(self, *args): ...\n'),
+                dict(file=V, old='class Int8(IntValidatorBase[_P, ctypes.c_int8], Generic[_P]):\n    """Validator for 8-bit integers"""\n\n    _size: ClassVar[int] = 1\n    _unsigned: ClassVar[bool] = False\n    _min: ClassVar[int] = -(2**7)\n    _max: ClassVar[int] = 2**7 - 1\n\n', new='class Int8(IntValidatorBase[_P, ctypes.c_int8], Generic[_P], size=1, unsigned=False):\n    """Validator for 8-bit integers"""\n\n')]),
 ]
